@@ -84,7 +84,11 @@ fn alphabet() -> Vec<Ev> {
 fn policy(p: u8) -> DownloadPolicy {
     match p {
         0 => DownloadPolicy::default(),
-        1 => DownloadPolicy::NothingExcept(vec![FilterKind::Prefix(Bytes::from_static(b"a"))]),
+        // remote keys are ab, p, q, c: one key longer than a prefix filter, one equal to one
+        1 => DownloadPolicy::NothingExcept(vec![
+            FilterKind::Prefix(Bytes::from_static(b"a")),
+            FilterKind::Prefix(Bytes::from_static(b"p")),
+        ]),
         _ => DownloadPolicy::EverythingExcept(vec![FilterKind::Exact(Bytes::from_static(b"ab"))]),
     }
 }
@@ -92,7 +96,7 @@ fn policy(p: u8) -> DownloadPolicy {
 fn policy_says(p: u8, key: &[u8]) -> bool {
     match p {
         0 => true,
-        1 => key.starts_with(b"a"),
+        1 => key.starts_with(b"a") || key.starts_with(b"p"),
         _ => key != b"ab",
     }
 }
